@@ -7,7 +7,7 @@
     the reduction to the output depth ("within one quantisation level") are checked by the oracle. *)
 From Coq Require Import ZArith List Bool.
 Require Import SPP.Base.Rt SPP.Base.Iter SPP.Gen.Kernels SPP.Gen.Plan SPP.Gen.TransformSites SPP.Model.Stream SPP.Model.Plan SPP.Model.C07_pipe
-               SPP.Model.C16_File SPP.Model.C14_filters SPP.Proofs.C02_stream SPP.Proofs.C01_plan SPP.Proofs.C06_reduce SPP.Proofs.C07_transforms SPP.Proofs.C07_zerodm.
+               SPP.Model.C16_File SPP.Model.C14_filters SPP.Proofs.C02_stream SPP.Proofs.C01_plan SPP.Proofs.C06_reduce SPP.Proofs.C07_transforms SPP.Proofs.C07_zerodm SPP.Proofs.C07_batches.
 Import ListNotations.
 Open Scope Z_scope.
 
@@ -89,6 +89,45 @@ Theorem C07_remove_zerodm : forall fs nch N gulp start nsamps,
     Some (flat_map (fun t => map (fun c => Sel fs nch start t c - zdm fs nch start t * w c + bp c) (zrange nch)) (zrange nsamps)).
 Proof. exact zerodm_spec. Qed.
 Print Assumptions C07_remove_zerodm.
+
+(** the multi-file extractions open their output files in batches of batch_size ([batched], with batch_end / chans_batch_index / bands_batch_c0
+    regenerated from base.py): the batching loops visit every file index exactly once, in order, for every batch size *)
+Theorem C07_batches_enumerate : forall (A : Type) (g : Z -> A) n bs, 0 <= n -> 1 <= bs ->
+  batched n bs (fun batch_start ifile => g (batch_start + ifile)) = map g (zrange n).
+Proof. exact @batched_enum. Qed.
+Print Assumptions C07_batches_enumerate.
+
+(** extract_chans as a whole: file i of the returned list is the column of channel chans[i] of the selected samples -- for every gulp, sub-range,
+    batch size, and every list of in-range channels (any length, any order, repetitions allowed) *)
+Theorem C07_extract_chans_files : forall fs nch N gulp start nsamps,
+  1 <= nfiles fs -> 1 <= nch -> SPP.Model.Stream.total fs = N * nch -> 0 <= start -> 1 <= nsamps -> start + nsamps <= N -> 1 <= gulp ->
+  forall batch_size chans, 1 <= batch_size -> Forall (fun c => 0 <= c < nch) chans ->
+  chans_files fs nch gulp start nsamps batch_size chans = map (fun chan => Some (flat_map (fun t => [Sel fs nch start t chan]) (zrange nsamps))) chans.
+Proof. exact chans_files_spec. Qed.
+Print Assumptions C07_extract_chans_files.
+
+(** extract_bands as a whole: nchans/chanpersub files; file i holds channels [chanstart + i*chanpersub, chanstart + (i+1)*chanpersub) of the selected
+    samples -- for every gulp, sub-range and batch size *)
+Theorem C07_extract_bands_files : forall fs nch N gulp start nsamps,
+  1 <= nfiles fs -> 1 <= nch -> SPP.Model.Stream.total fs = N * nch -> 0 <= start -> 1 <= nsamps -> start + nsamps <= N -> 1 <= gulp ->
+  forall batch_size chanstart nchans_sel cps, 1 <= batch_size -> 1 <= cps -> 0 <= chanstart -> 0 <= nchans_sel -> chanstart + nchans_sel <= nch ->
+  bands_files fs nch gulp start nsamps batch_size chanstart nchans_sel cps =
+    map (fun iband => Some (flat_map (fun t => map (fun c => Sel fs nch start t (chanstart + iband * cps + c)) (zrange cps)) (zrange nsamps)))
+        (zrange (nchans_sel / cps)).
+Proof. exact bands_files_spec. Qed.
+Print Assumptions C07_extract_bands_files.
+
+(** non-vacuity of the batched extractions: 2 files, 6 samples x 4 channels, sub-range [1,4), gulp 2; three channels out of order in batches of 2;
+    two bands of 2 channels from channel 0 in batches of 1, and a single band from channel 1 *)
+Example C07_files_example :
+  let fs := [mkfile [224] [1;2;3;4; 5;6;7;8]; mkfile [225] [9;10;11;12; 13;14;15;16; 17;18;19;20; 21;22;23;24]] in
+  chans_files fs 4 2 1 3 2 [3;0;2] = [Some [8;12;16]; Some [5;9;13]; Some [7;11;15]] /\
+  bands_files fs 4 2 1 3 1 0 4 2 = [Some [5;6; 9;10; 13;14]; Some [7;8; 11;12; 15;16]] /\
+  bands_files fs 4 3 1 3 200 1 2 2 = [Some [6;7; 10;11; 14;15]] /\
+  mask_pipe fs 4 2 1 3 (of_list [0;1;0;1]) 99 = Some [5;99;7;99; 9;99;11;99; 13;99;15;99] /\
+  samps_pipe fs 4 2 1 3 = Some [5;6;7;8; 9;10;11;12; 13;14;15;16] /\
+  batched 5 2 (fun b i => b + i) = [0;1;2;3;4].
+Proof. vm_compute. repeat split; reflexivity. Qed.
 
 (** non-vacuity: 2 files, 6 samples x 4 channels, sub-range [1,6) *)
 Example C07_example :
